@@ -154,6 +154,17 @@ def _run(scen, sim, final, info, hooks, scratch):
         if user_hooks.get("post"):
             user_hooks["post"](name, rec, ret, ev)
 
+    def rewrap(sched):
+        """(Re-)install the probes on a scheduler object (used after a simulated crash-restart, C16)."""
+        def post2(name, rec, ret, ev, scheduler=sched):
+            taps(scheduler, name, rec, ret, ev)
+            if user_hooks.get("post"):
+                user_hooks["post"](name, rec, ret, ev)
+
+        probes.wrap_scheduler(sim, sched, latency, hooks={"pre": user_hooks.get("pre"), "post": post2},
+                              hang_limit=90.0 if scen["kind"] in _zoo.GP_KINDS else 12.0)
+
+    info["rewrap"] = rewrap
     probes.wrap_scheduler(sim, scheduler, latency, hooks={"pre": user_hooks.get("pre"), "post": post},
                           hang_limit=90.0 if scen["kind"] in _zoo.GP_KINDS else 12.0)
     if hooks.get("pre_run"):
